@@ -389,6 +389,7 @@ func scalarReplace(pkg *packages.Package, knownTypes map[string]bool, content fu
 			okUses := true
 			fieldType := map[string]types.Type{}
 			var uses []*ast.SelectorExpr
+			promoted := map[*ast.SelectorExpr]string{} // a field promoted from an embedded struct: the embedded field's name
 			for id, obj := range info.Uses {
 				if obj != types.Object(c.v) {
 					continue
@@ -399,9 +400,21 @@ func scalarReplace(pkg *packages.Package, knownTypes map[string]bool, content fu
 					break
 				}
 				sel := info.Selections[se]
-				if sel == nil || sel.Kind() != types.FieldVal || len(sel.Index()) != 1 {
+				if sel == nil || sel.Kind() != types.FieldVal {
 					okUses = false
 					break
+				}
+				if len(sel.Index()) > 1 {
+					// v.f with f promoted from the embedded field E: the same as v.E.f
+					emb := c.st.Field(sel.Index()[0])
+					if !emb.Embedded() {
+						okUses = false
+						break
+					}
+					promoted[se] = emb.Name()
+					fieldType[emb.Name()] = emb.Type()
+					uses = append(uses, se)
+					continue
 				}
 				fieldType[se.Sel.Name] = info.TypeOf(se)
 				uses = append(uses, se)
@@ -462,6 +475,10 @@ func scalarReplace(pkg *packages.Package, knownTypes map[string]bool, content fu
 			}
 			eds := []srcEdit{{off(c.stmt.Pos()), off(c.stmt.End()), decl.String()}}
 			for _, se := range uses {
+				if emb, isProm := promoted[se]; isProm {
+					eds = append(eds, srcEdit{off(se.X.Pos()), off(se.X.End()), local(emb)})
+					continue
+				}
 				eds = append(eds, srcEdit{off(se.Pos()), off(se.End()), local(se.Sel.Name)})
 			}
 			out := applyEdits(append([]byte{}, src...), eds)
